@@ -5,7 +5,7 @@ From SedV Require Import Clamp FitCore.
 
 (* brightness scaling: every log flux moves by delta = lg c, i.e. resid' = resid + t * s with s = -2, t = -delta/2 *)
 Definition shifted (t : Q) (r r' : row) : Prop :=
-  resid r' == resid r + t * r_s r /\ r_a r' = r_a r /\ r_s r' = r_s r /\ w r' = w r.
+  resid r' == resid r + t * r_s r /\ r_a r' == r_a r /\ r_s r' == r_s r /\ w r' == w r.
 
 Lemma shift_moments t rows rows' : Forall2 (shifted t) rows rows' ->
   c1 rows' == c1 rows + t * m12 rows /\ c2 rows' == c2 rows + t * m22 rows /\
